@@ -100,7 +100,9 @@ def abstract(draw):
                 # continuous set-up); legacy files then say release_type: discrete or nothing at all
                 stale_freq=draw(st.sampled_from([0, 0, 1, 2])), v1_type=draw(st.sampled_from(["explicit", "omit"])),
                 # legacy files may name the forcing file and the grid file in the gridforce or in the files section
-                v1_places=draw(st.sampled_from(["gg", "gg", "gf", "fg", "ff"])))
+                v1_places=draw(st.sampled_from(["gg", "gg", "gf", "fg", "ff"])),
+                # the file format named in the configuration (legacy: output_variables.format; v2: ncargs.data_model)
+                ncformat=draw(st.sampled_from(["NETCDF4", "NETCDF4", "NETCDF4_CLASSIC", "NETCDF3_CLASSIC", "NETCDF3_64BIT_OFFSET"])))
 
 
 def build_files(d, a):
@@ -191,7 +193,7 @@ def render(a, F, d, spelling, out):
             "gridforce": {"module": "ladim1.gridforce.ROMS" if F["gfmod"] == "ladim.ROMS" else F["gfmod"],
                           "input_file": F["pattern"]},
             "particle_release": {"variables": F["cols"], "particle_variables": pvars},
-            "output_variables": {"outper": per, "instance": ivars, "particle": pvars, "format": "NETCDF4"},
+            "output_variables": {"outper": per, "instance": ivars, "particle": pvars, "format": a.get("ncformat", "NETCDF4")},
             "numerics": {"dt": DT, "advection": a["advection"], "diffusion": 0.0},
         }
         if ref:
@@ -234,7 +236,7 @@ def render(a, F, d, spelling, out):
          "forcing": {"module": F["gfmod"], "filename": F["pattern"]},
          "tracker": {"advection": a["advection"]},
          "release": {"release_file": str(d / "rel.rls"), "names": F["cols"]},
-         "output": {"filename": str(d / out), "output_period": per, "ncargs": {"data_model": "NETCDF4"},
+         "output": {"filename": str(d / out), "output_period": per, "ncargs": {"data_model": a.get("ncformat", "NETCDF4")},
                     "instance_variables": {}, "particle_variables": {}}}
     if ref:
         c["time"]["reference"] = ref
